@@ -128,9 +128,11 @@ static int c_rm_parked, c_rm_last_open, c_all_removed_open, c_insert_during, c_a
 	c_multi_open, c_judged, c_judged_mut, c_rm_removed_parked, c_put_removed_parked, c_foreach_rm, c_quiescent,
 	c_avoided, c_replace_during, c_iter_on_empty, c_rm_absent, c_free_notified, c_runs[3];
 
+static int p_prefix_escape;
 static void init(const char *)
 {
 	build_universe();
+	p_prefix_escape = counter_id("probe", "prefix_iterator_returned_key_without_prefix_not_judged");
 	c_rm_parked = counter_id("probe", "rm_of_key_a_walker_is_positioned_on");
 	c_rm_last_open = counter_id("probe", "rm_of_last_remaining_key_while_iterator_open");
 	c_all_removed_open = counter_id("probe", "all_keys_removed_while_iterator_open");
@@ -267,7 +269,7 @@ struct Walker {
 	bool open, completed;
 	int parked;              // universe index of the key last returned, -1 if none
 	bool parked_removed;     // that key was removed (model) while this walker is positioned on it
-	uint64_t k_all, k_ever, scope, retmask;
+	uint64_t k_all, k_ever, k_ever_all, scope, retmask;   // k_ever_all: ever present since the iteration began, prefix or not
 	uint16_t ret[MAXM];
 	bool ins, mut;
 	char *prefix;
@@ -398,7 +400,7 @@ static void do_put(int k, int copy, size_t opi)
 		if (!walking(w)) continue;
 		during = true;
 		w.ins = true; w.mut = true;
-		if (!was) w.k_ever |= bit(k) & w.scope;
+		if (!was) { w.k_ever |= bit(k) & w.scope; w.k_ever_all |= bit(k); }
 	}
 	if (during) count(was ? c_replace_during : c_insert_during);
 	ev(201, k, was, s);
@@ -488,8 +490,13 @@ static void returned_key(Walker &w, const char *s, void *v, size_t opi, const ch
 	TRACE("op %zu: walker %d %s -> \"%s\" value #%ld", opi, (int)(&w - R.w), how, printable(s).c_str(), sv);
 	w.nret++;
 	if (!(w.scope & bit(k))) {
-		fail("prefix-iter-returned-key-without-prefix", R.site_next, "op %zu: %s of a prefix iterator (\"%s\") returned key \"%s\"", opi, how,
-		     w.prefix ? printable(w.prefix).c_str() : "", printable(s).c_str());
+		// A prefix iterator returning a key that lacks the prefix is wrong by the documented iterator semantics, but
+		// C18 as stated only forbids keys that were never present; it is counted, not judged (and such a key takes no
+		// part in the completeness accounting of this iteration).
+		count(p_prefix_escape);
+		if (!(w.k_ever_all & bit(k)))
+			fail("iter-returned-key-never-present-during-iteration", R.site_next,
+			     "op %zu: %s returned key \"%s\" which was not in the map at any time since this iteration began", opi, how, printable(s).c_str());
 		return;
 	}
 	if (!(w.k_ever & bit(k))) {
@@ -553,6 +560,7 @@ static void walker_begin(Walker &w, uint64_t scope)
 	w.parked = -1; w.parked_removed = false;
 	w.scope = scope;
 	w.k_all = w.k_ever = R.present & scope;
+	w.k_ever_all = R.present;
 	w.retmask = 0;
 	memset(w.ret, 0, sizeof w.ret);
 	w.ins = w.mut = false;
